@@ -19,8 +19,16 @@ statement only, never from `_depends`):
   undecorated resolved definition is never called; construction => exactly one call iff
   on_init.
 
+* assigning methods (section "assigning methods" below): an `on_init=True` method whose body
+  ASSIGNS a parameter during construction, other `watch=True` methods declared earlier / later /
+  in a base class / in a subclass that depend on the assigned parameter (and may assign a further
+  one), every declaration order: each call of an assigning method is one assignment that every
+  dependent method must see exactly once, `on_init` adds exactly one call;
+
 Lenient readings (never demand more than the statement):
 
+* a method hit by n >= 2 separate assignments made by other methods inside ONE top-level step
+  (construction or one operation) is allowed 1..n calls for them;
 * a batch that changes dependencies of two different kinds at once (a parameter *value* and a
   slot such as `p:bounds`) is allowed 1..2 calls (DESIGN.md section 7 groups by (owner, what));
 * when a method names another method as a dependency and that method resolves to an
@@ -481,6 +489,242 @@ def run_fn_chunk(tasks):
 
 
 # ------------------------------------------------------------------------------------------
+# assigning methods: an on_init=True method whose body ASSIGNS a parameter at construction,
+# combined with other watch=True methods (declared earlier / later / in a base or subclass) that
+# depend on the assigned parameter
+# ------------------------------------------------------------------------------------------
+# A family: root class A (parameters a, d, e) and subclass B(A); up to three methods
+#   mi  @depends('a', watch=True, on_init=True)        body: self.d = <fresh value> | self.d = self.d
+#   mw  @depends('d', watch=True[, on_init=True])      body: nothing | self.e = <fresh value>
+#   mz  @depends(<zdeps>, watch=True)                  body: nothing          (optional)
+# placement of a method: 'A' (defined in A), 'B' (defined in B only), 'AB' (defined in A, overridden
+# in B with the same decoration and body), 'AU' (defined in A, overridden UNDECORATED in B);
+# declaration order: every permutation of the methods (the order inside each class body).
+#
+# Oracle (from the statement, independent of any registration order): a call of a method whose
+# body assigns a fresh value is one assignment that changes the assigned parameter, so every
+# method resolved on the instance's class that is decorated with watch=True and depends on that
+# parameter runs once for it (recursively); on_init adds exactly one call at construction; an
+# undecorated override is never called.  A method hit by n >= 2 separate assignments inside one
+# top-level step (construction / one operation) is allowed 1..n calls for them (lenient: nested
+# assignments may legitimately be coalesced with the enclosing batch).
+AF_PLACES_I = ['A', 'B', 'AB', 'AU']
+AF_PLACES_W = ['A', 'B', 'AB']
+AF_PLACES_Z = ['A', 'B']
+AF_ZDEPS = [('e',), ('d', 'e'), ('a', 'd')]
+AF_OPS = ['sa', 'sd', 'sa=', 'uad']
+AF_CHANGES = {'sa': {'a'}, 'sd': {'d'}, 'sa=': set(), 'uad': {'a', 'd'}}
+
+
+def af_families(tier):
+    out = []
+    for pi in AF_PLACES_I:
+        for pw in AF_PLACES_W:
+            for i_assign in ('fresh', 'same'):
+                for w_init in (False, True):
+                    for w_assign in (False, True):
+                        for order in itertools.permutations(('mi', 'mw')):
+                            out.append((order, (pi, pw, None), i_assign, w_init, w_assign, None))
+                        for pz in AF_PLACES_Z:
+                            for zdeps in AF_ZDEPS:
+                                for order in itertools.permutations(('mi', 'mw', 'mz')):
+                                    out.append((order, (pi, pw, pz), i_assign, w_init, w_assign, zdeps))
+    return out
+
+
+def af_key(fam):
+    order, (pi, pw, pz), i_assign, w_init, w_assign, zdeps = fam
+    return 'family=assign order=%s place=mi:%s,mw:%s,mz:%s mi_assigns=%s mw_on_init=%d mw_assigns=%s zdeps=%s' % (
+        '>'.join(order), pi, pw, pz or '-', i_assign, int(w_init), 'fresh' if w_assign else '-',
+        '+'.join(zdeps) if zdeps else '-')
+
+
+def af_methods(fam):
+    """{name: (deps, on_init, assigned parameter or None, 'fresh'|'same'|None, placement)}"""
+    order, (pi, pw, pz), i_assign, w_init, w_assign, zdeps = fam
+    m = {'mi': (('a',), True, 'd', i_assign, pi),
+         'mw': (('d',), w_init, 'e' if w_assign else None, 'fresh' if w_assign else None, pw)}
+    if pz is not None:
+        m['mz'] = (tuple(zdeps), False, None, None, pz)
+    return m
+
+
+def af_source(fam):
+    order = fam[0]
+    meths = af_methods(fam)
+    out = ["import logging, warnings", "import param", "warnings.simplefilter('ignore')",
+           "param.parameterized.get_logger().setLevel(logging.CRITICAL)", "LOG = []", "CNT = [1000]",
+           "def NEXT():", "    CNT[0] += 1", "    return CNT[0]"]
+    for cname in ('A', 'B'):
+        out.append("class A(param.Parameterized):" if cname == 'A' else "class B(A):")
+        body = []
+        if cname == 'A':
+            body += ["a = param.Integer(0)", "d = param.Integer(0)", "e = param.Integer(0)"]
+        for name in order:
+            deps, on_init, target, how, place = meths[name]
+            if cname == 'A' and place == 'B':
+                continue
+            if cname == 'B' and place == 'A':
+                continue
+            if cname == 'B' and place == 'AU':
+                body.append("def %s(self): LOG.append('B.%s')" % (name, name))
+                continue
+            body.append("@param.depends(%s, watch=True%s)" % (', '.join(repr(x) for x in deps),
+                                                              ', on_init=True' if on_init else ''))
+            body.append("def %s(self):" % name)
+            body.append("    LOG.append('%s.%s')" % (cname, name))
+            if target is not None:
+                body.append("    self.%s = %s" % (target, 'NEXT()' if how == 'fresh' else 'self.' + target))
+        if len(body) == 0:
+            body = ["pass"]
+        out += ["    " + b for b in body]
+    return '\n'.join(out) + '\n'
+
+
+def af_resolved(fam, cname):
+    """{name: (definition site, deps, on_init, assigned parameter if the body changes it)} for the
+    methods that getattr resolves on `cname` to a definition decorated with watch=True"""
+    res = {}
+    for name, (deps, on_init, target, how, place) in af_methods(fam).items():
+        if cname == 'A':
+            if place == 'B':
+                continue
+            site = 'A.' + name
+        else:
+            if place == 'AU':
+                continue            # undecorated override: never called automatically
+            site = ('A.' if place == 'A' else 'B.') + name
+        res[name] = (site, set(deps), on_init, target if how == 'fresh' else None)
+    return res
+
+
+def af_expected(fam, cname, step):
+    """{site: (lo, hi)}; step = 'init' or an operation of AF_OPS"""
+    res = af_resolved(fam, cname)
+    counts = {v[0]: [0, 0] for v in res.values()}
+
+    def call(name, why):
+        site, deps, on_init, target = res[name]
+        counts[site][why] += 1
+        if target is not None:
+            fire({target})
+
+    def fire(changed):
+        for name in sorted(res):
+            if res[name][1] & changed:
+                call(name, 1)
+    if step == 'init':
+        for name in sorted(res):
+            if res[name][2]:
+                call(name, 0)
+    elif AF_CHANGES[step]:
+        fire(AF_CHANGES[step])
+    return {site: (a + min(n, 1), a + n) for site, (a, n) in counts.items()}
+
+
+def af_op_source(op, n):
+    fresh, fresh2 = 100 + 2 * n, 101 + 2 * n
+    return {'sa': ["o.a = %d" % fresh], 'sd': ["o.d = %d" % fresh], 'sa=': ["o.a = o.a"],
+            'uad': ["o.param.update(a=%d, d=%d)" % (fresh, fresh2)]}[op]
+
+
+def af_run_chunk(args):
+    """returns list of (ncases, keys, clause counts, violations) per family"""
+    fams, ctors = args
+    _silence()
+    out = []
+    for fam in fams:
+        ns = {}
+        exec(compile(af_source(fam), '<assign family>', 'exec'), ns)
+        LOG = ns['LOG']
+        fkey = af_key(fam)
+        ncases, keys, cc, viols = 0, [], {}, []
+        for cname in ('A', 'B'):
+            for ctor in ctors:
+                ncases += 1
+                keys.append('%s cls=%s ctor=%d prog=%s' % (fkey, cname, ctor, ','.join(AF_OPS)))
+                del LOG[:]
+                o = ns[cname](a=7) if ctor else ns[cname]()
+                steps = [('init', list(LOG))]
+                env = {'o': o, 'param': ns['param']}
+                for i, op in enumerate(AF_OPS):
+                    del LOG[:]
+                    exec(compile('\n'.join(af_op_source(op, i)), '<op>', 'exec'), env)
+                    steps.append((op, list(LOG)))
+                for i, (step, log) in enumerate(steps):
+                    clause = AF_CLAUSE_INIT if step == 'init' else AF_CLAUSE_OP
+                    cc[clause] = cc.get(clause, 0) + 1
+                    for (site, g, lo, hi) in compare(log, af_expected(fam, cname, step)):
+                        viols.append(dict(fam=fam, cls=cname, ctor=ctor, step=step, nsteps=i, site=site,
+                                          got=g, lo=lo, hi=hi))
+        out.append((ncases, keys, cc, viols))
+    return out
+
+
+AF_CLAUSE_INIT = 'C06/__init__/on_init method assigning a parameter: calls == on_init + assignments seen'
+AF_CLAUSE_OP = 'C06/dispatch/methods assigning parameters: invocations==deps(resolved method)'
+
+
+def af_class(v):
+    """(clause, kind, failing method, position of its definition relative to the definition of the
+    method whose assignment it depends on)"""
+    fam = v['fam']
+    order = fam[0]
+    name = v['site'].split('.')[1]
+    res = af_resolved(fam, v['cls'])
+    if v['got'] < v['lo']:
+        kind = 'missed'
+    elif v['hi'] == 0:
+        kind = 'spurious'
+    else:
+        kind = 'extra'
+    pos = '-'
+    if name in res:
+        deps = res[name][1]
+        assigners = [n for n in sorted(res) if n != name and res[n][3] in deps]
+        if assigners:
+            a = assigners[0]
+            ca, cm = res[a][0].split('.')[0], res[name][0].split('.')[0]
+            if ca == cm:
+                pos = 'declared-after-assigner' if order.index(name) > order.index(a) else 'declared-before-assigner'
+            else:
+                pos = 'in-subclass-of-assigner' if cm == 'B' else 'in-base-of-assigner'
+    else:
+        pos = 'not-resolved-decorated'
+    clause = AF_CLAUSE_INIT if v['step'] == 'init' else AF_CLAUSE_OP
+    return (clause, kind, name, pos)
+
+
+def af_weight(v):
+    order, places, i_assign, w_init, w_assign, zdeps = v['fam']
+    return (places[2] is not None, sum(p != 'A' for p in places if p), int(w_init) + int(w_assign),
+            i_assign != 'fresh', v['cls'] != 'A', v['ctor'], v['nsteps'], af_key(v['fam']))
+
+
+def af_witness(v):
+    clause, kind, name, pos = af_class(v)
+    w = 'kind=%s method=%s pos=%s %s cls=%s ctor_kwargs=%d step=%s got=%d want=%s' % (
+        kind, name, pos, af_key(v['fam']), v['cls'], v['ctor'], v['step'], v['got'],
+        ('%d' % v['lo']) if v['lo'] == v['hi'] else '%d..%d' % (v['lo'], v['hi']))
+    return clause, w
+
+
+def af_replay(v, clause, witness):
+    src = REPLAY_HEADER.format(prop='C06', name='replay_c06.py', clause=clause, witness=witness)
+    src += af_source(v['fam'])
+    src += "o = %s(%s)\n" % (v['cls'], 'a=7' if v['ctor'] else '')
+    for i, op in enumerate(AF_OPS[:v['nsteps']]):
+        src += "del LOG[:]\n" + '\n'.join(af_op_source(op, i)) + '\n'
+    src += "n = LOG.count(%r)\n" % v['site']
+    src += "print('log of the %s:', LOG)\n" % ('construction' if v['step'] == 'init' else 'last step')
+    src += "if not (%d <= n <= %d):\n" % (v['lo'], v['hi'])
+    src += "    print('REPRODUCED: %s called %%d times, expected %s' %% n)\n" % (
+        v['site'], ('%d' % v['lo']) if v['lo'] == v['hi'] else '%d..%d' % (v['lo'], v['hi']))
+    src += "    sys.exit(1)\nprint('NOT-REPRODUCED')\n"
+    return src
+
+
+# ------------------------------------------------------------------------------------------
 # _parse_dependency_spec: exhaustive over specs of <= 3 path segments (DESIGN.md section 7, C06)
 # ------------------------------------------------------------------------------------------
 def check_parse(B):
@@ -758,13 +1002,21 @@ def _run(tier, seed):
               "with constructor keywords) runs a seeded permutation of all 13 operations plus seeded "
               "programs of 2-3 operations; the smallest families run ALL programs over a 9-operation "
               "core alphabet; function form: 8 Parameter-object dependency lists x all programs; every "
-              "step compares the invocation log with deps(method that getattr resolves to). A case = "
-              "(family, class, constructor form, program); distinct by that tuple"),
+              "step compares the invocation log with deps(method that getattr resolves to). Assigning "
+              "methods: classes A, B(A) with an on_init=True method whose body assigns a parameter (fresh / "
+              "unchanged value), a watch=True method depending on it (with / without on_init, itself assigning "
+              "a further parameter or not) and an optional third method depending on the assigned parameters, x "
+              "EVERY declaration order x placement of each method {A, B, A overridden in B decorated / "
+              "undecorated}; construction and 4 operations are compared with: every call of an assigning "
+              "method is one assignment seen exactly once by each dependent method, on_init adds exactly one "
+              "call. A case = (family, class, constructor form, program); distinct by that tuple"),
         bound=("<= 4 classes, <= 2 dependent methods, dependency sets over 2 parameters + 'p:bounds' + "
                "method-on-method; programs: 13-operation permutation + programs <= 3 (sampled), all "
                "programs <= %d over 9 operations on the 1-2 class core; function form all programs <= %d "
-               "over 10 operations; _parse_dependency_spec: all specs of <= 3 segments"
-               % ((3, 3) if tier == 'thorough' else (2, 2))))
+               "over 10 operations; _parse_dependency_spec: all specs of <= 3 segments; assigning methods: "
+               "<= 3 methods, 2 classes, assignment chains of length <= 2, all %d families%s"
+               % ((3, 3, len(af_families(tier)), '') if tier == 'thorough' else
+                  (2, 2, len(af_families(tier)), ' (without constructor keywords)'))))
     _silence()
     tasks, exhaustive, counts = enumerate_tasks(tier, seed)
     tasks += program_tasks(tier)
@@ -782,6 +1034,10 @@ def _run(tier, seed):
         fprogs = [p for n in range(1, L + 1) for p in itertools.product(FN_OPS, repeat=n)]
         ftasks = [(d[0], p) for d in FN_DEPSETS for p in fprogs]
         fut_n = [ex.submit(run_fn_chunk, ftasks[i::32]) for i in range(32)]
+        # assigning methods (on_init method whose body assigns a parameter other methods depend on)
+        afams = af_families(tier)
+        actors = (False, True) if tier == 'thorough' else (False,)
+        fut_a = [ex.submit(af_run_chunk, (afams[i::48], actors)) for i in range(48)]
         for fu in fut_f:
             for ncases, keys, cc, viols in fu.result():
                 for k in keys:
@@ -789,6 +1045,14 @@ def _run(tier, seed):
                 for c, n in cc.items():
                     B.checked(c, n)
                 allv += viols
+        afv = []
+        for fu in fut_a:
+            for ncases, keys, cc, viols in fu.result():
+                for k in keys:
+                    B.case(key=k)
+                for c, n in cc.items():
+                    B.checked(c, n)
+                afv += viols
         fnv = []
         for fu, i in zip(fut_n, range(32)):
             for (n, viol), (label, prog) in zip(fu.result(), ftasks[i::32]):
@@ -826,6 +1090,17 @@ def _run(tier, seed):
             rep['label'], k[1], ','.join(rep['prog']), rep['got'], rep['want'])
         reports.append((clause, witness, fn_replay(rep, clause, witness), len(vs),
                         'f called %d times, expected %d' % (rep['got'], rep['want'])))
+    agroups = {}
+    for v in afv:
+        agroups.setdefault(af_class(v), []).append(v)
+    for k in sorted(agroups):
+        vs = agroups[k]
+        rep = min(vs, key=af_weight)
+        clause, witness = af_witness(rep)
+        reports.append((clause, witness, af_replay(rep, clause, witness), len(vs),
+                        'site %s called %d times during %s, expected %s'
+                        % (rep['site'], rep['got'], 'construction' if rep['step'] == 'init' else 'the last step',
+                           (rep['lo'], rep['hi']))))
     reports.sort(key=lambda r: (r[0], len(r[1]), r[1]))
     per_clause, kept = {}, []
     for r in reports:
